@@ -313,7 +313,23 @@ pub fn build_geom(raw: &RawGeom, g: usize, pool: &[C], other_cells: Option<&[boo
                     if ps.is_empty() {
                         return None;
                     }
-                    Some(G::Coll(ps.into_iter().take(3).map(G::Polygon).collect()))
+                    // members that are rectangles / triangles appear as Rect / Triangle half of the time (collections of
+                    // different areal types)
+                    let mut members: Vec<G> = ps.into_iter().take(3).enumerate().map(|(i, p)| if (f >> (9 + i)) & 1 == 0 { crate::conv::as_simple_type(&p) } else { G::Polygon(p) }).collect();
+                    // ... and, half of the time, a Triangle or Rect of its own next to the board (first or last member)
+                    if (f >> 13) & 1 == 0 && pts.len() >= 3 {
+                        let sh = |c: C| (c.0 + 2 * g as i64 + 2, c.1);
+                        let extra = if (f >> 14) & 1 == 0 { G::Triangle(sh(pts[0]), sh(pts[1]), sh(pts[2])) } else { G::Rect(sh(pts[0]), sh(pts[1])) };
+                        let degenerate = match &extra {
+                            G::Triangle(a, b, c) => (b.0 - a.0) * (c.1 - a.1) - (b.1 - a.1) * (c.0 - a.0) == 0,
+                            G::Rect(a, b) => a.0 == b.0 || a.1 == b.1,
+                            _ => true,
+                        };
+                        if !degenerate {
+                            if (f >> 15) & 1 == 0 { members.push(extra) } else { members.insert(0, extra) }
+                        }
+                    }
+                    Some(G::Coll(members))
                 }
             }
         }
